@@ -158,7 +158,7 @@ func c07ReadMsg(s *Stream, timeout time.Duration) (c07Msg, string, string) {
 func (p *c07Pipe) drain(timeout time.Duration) {
 	p.mu.Lock()
 	defer p.mu.Unlock()
-	if p.r == nil || p.Garbage != "" {
+	if p.r == nil || p.Garbage != "" || p.ReaderClosed {
 		return
 	}
 	for {
@@ -212,7 +212,13 @@ func (p *c07Pipe) closeW() {
 	tailBefore := atomic.LoadInt64(q.tail)
 	wasFallback := p.w.inFallbackState
 	if p.sib != nil {
-		p.sib.mu.Lock()
+		// the stream object is also the reader of the opposite direction: read what has arrived, then never
+		// touch it again (reading from a stream after its own Close is outside the API contract: its buffers
+		// are recycled and may already belong to another stream)
+		if !c07Concurrent {
+			p.sib.drain(20 * time.Millisecond)
+		}
+		p.sib.mu.Lock() // waits for a concurrent drain round of the reader goroutine to finish
 		p.sib.ReaderClosed = true
 		p.sib.mu.Unlock()
 	}
